@@ -121,6 +121,18 @@ def base_ns(draw=None, probes=0, hooks=False):
             # callables that grow / shrink a mapping of the namespace stack
             mua=dict(t='mutator', id='a', mode='add'),
             mud=dict(t='mutator', id='d', mode='del'),
+            # sub-templates whose class caches results through the render
+            # hooks (second and later calls are cache hits)
+            tc=dict(t='tmpl', hooks='cache', defaults=dict(tcd='⟦TC⟧',
+                                                           va='⟦TC.va⟧'),
+                    ast=[dict(k='text', s='(tc'),
+                         dict(k='var', ref=dict(r='name', n='va'), opts=[]),
+                         dict(k='text', s=')')]),
+            tcx=dict(t='tmpl', hooks='cache-raise',
+                     defaults=dict(tcd='⟦TCX⟧', vb='⟦TCX.vb⟧'),
+                     ast=[dict(k='text', s='(tcx'),
+                          dict(k='var', ref=dict(r='name', n='vb'), opts=[]),
+                          dict(k='text', s=')')]),
             # mappings whose truth value changes while they are pushed
             mf=dict(t='dict', items={}),
             me=dict(t='dict', items=dict(va='⟦ME.va⟧', xm='⟦ME.xm⟧')),
@@ -398,6 +410,7 @@ def node_of(cfg, k, depth, scope):
                         opts=[list(o) for o in opts])
         inner = body(cfg, d, scope + ('va', 'xi'))
         menu = [
+            st.just(vn('tc')), st.just(vn('tcx')),
             st.just(vn('mua')), st.just(vn('mud')),
             st.just(dict(k='call', ref=dict(r='name', n='mua'))),
             st.just(vn('hv')), st.just(vn('hv', ('fmt', 'shout'))),
